@@ -1,5 +1,6 @@
 import TxV.Drv.C12
 import TxV.Drv.Ctl
+import TxV.Drv.C13
 open TxV.Drv
 
 def main (args : List String) : IO UInt32 := do
@@ -7,5 +8,6 @@ def main (args : List String) : IO UInt32 := do
   let stdout ← IO.getStdout
   match args with
   | ["C12"] => loop stdin stdout () C12.step; return 0
+  | ["C13"] => loop stdin stdout () C13.step; return 0
   | ["Ctl"] => loop stdin stdout ({} : Ctl.St) Ctl.step; return 0
   | _ => IO.eprintln "usage: driver <property-id>"; return 2
